@@ -75,6 +75,10 @@ def make_vals(rng, H, W, kind):
                 row.append(rng.choice([0, 5, 16777216, 16777217, 16777221, 33554433]))
             elif kind == "int":
                 row.append(rng.randrange(0, 10))
+            elif kind == "finite":
+                # templates of the generators: generate_terrain multiplies the template by 0, so a single NaN cell
+                # turns the whole surface into NaN on every backend and the comparison says nothing
+                row.append(rng.choice([0, 1, 2.5, 7.25, 100.125]))
             elif kind == "signed":
                 # small signed values: band sums cancel exactly (a == -b != 0) in some cells, differences in others
                 row.append("nan" if u < 0.08 else rng.choice([-3, -2, -1, 0, 1, 2]))
@@ -194,15 +198,15 @@ def build_jobs(ctx, rng):
         add("true_color", "true_color", {"nodata": rng.choice([0, 1, 3])}, H, W, rng.choice(["uint16", "uint8", "int32"]),
             "int", geo="unit", independent=True)
         add("perlin", "perlin", {"freq": rng.choice([[1, 2], [3, 1], [2, 2]]), "seed": rng.randrange(100)}, H, W,
-            "float32", "float")
+            "float32", "finite")
         add("generate_terrain", "generate_terrain", {"seed": rng.randrange(100), "zfactor": rng.choice([4000, 100])},
-            H, W, "float32", "float", geo="unit")
+            H, W, "float32", "finite", geo="unit")
         # a negative (legal) zfactor flips every comparison made after scaling
         add("generate_terrain", "generate_terrain", {"seed": rng.randrange(100), "zfactor": rng.choice([-250, -1])},
-            H, W, "float32", "float", geo="unit")
+            H, W, "float32", "finite", geo="unit")
         add("generate_terrain", "generate_terrain",
             {"seed": rng.randrange(100), "zfactor": 4000, "x_range": [0, 250], "y_range": [100, 300],
-             "full_extent": [0, 0, 500, 500]}, H, W, "float32", "float", geo="unit")
+             "full_extent": [0, 0, 500, 500]}, H, W, "float32", "finite", geo="unit")
     # stress family: many blocks running concurrently under the threaded scheduler (shared scratch state shows
     # only when block tasks overlap in time): 288x288 rasters, 48x48 chunks, 7x7 / 5x5 kernels, 8-16 workers
     big = 7
@@ -372,6 +376,7 @@ def execute(ctx, jobs):
             if res["error_np"]:
                 ctx.note("numpy call failed (outside domain, skipped): %s %s" % (job["func"], res["error_np"]))
                 continue
+            job["_informative"] = res.get("ref_informative", 1)
             for c in res["cases"]:
                 cases.append({"func": job["func"], "kh": job["kh"], "kw": job["kw"], "passes": job["passes"],
                               "error": c["error"], "lazy": c["lazy"], "overlaps": c["overlaps"],
@@ -385,7 +390,7 @@ def execute(ctx, jobs):
     for i, (job, c) in enumerate(back):
         ctx.evaluations += 1
         cl = v.get(i, "missing")
-        if len(c["rows"]) > 1 or len(c["cols"]) > 1:
+        if (len(c["rows"]) > 1 or len(c["cols"]) > 1) and job.get("_informative", 1) > 0:
             ctx.nontrivial((job["func"], str(job["params"]), job["H"], job["W"], job["dtype"], tuple(c["rows"]),
                             tuple(c["cols"]), c["sched"], c["nw"]))
         ctx.borderline += c["ndiff_borderline"]
@@ -403,6 +408,15 @@ def execute(ctx, jobs):
                     "rows": c["rows"], "cols": c["cols"], "sched": c["sched"], "overlaps": c["overlaps"],
                     "ndiff": c["ndiff"], "maxulp": c["maxulp"]})
     ctx.extra["functions"] = labels
+    # jobs whose NumPy reference has no finite cell at all compare nothing: counted per function, and a function
+    # all of whose jobs are of that kind is a hole in the input families (machinery failure, not a verdict)
+    vac = {}
+    for l in labels:
+        js = [j for j in jobs[l] if "_informative" in j]
+        vac[l] = [sum(1 for j in js if j["_informative"] == 0), len(js)]
+        if js and vac[l][0] == len(js):
+            raise core.MachineryError("every %s job has an all-NaN reference: the comparison is vacuous" % l)
+    ctx.extra["vacuous_jobs_per_function"] = {l: v for l, v in vac.items() if v[0]}
     ctx.extra["cases_per_function"] = {l: sum(len(j["chunkings"]) for j in jobs[l]) for l in labels}
 
 
